@@ -41,6 +41,6 @@ ASSUME = ['the kernel\'s socket buffers are smaller than the data queued for A (
           'the model works with scaled-down buffer sizes (same number of writes)']
 
 def run(tier):
-    return core.standard_run(PROP, tier, MODULES, THEOREMS, gen, oracle, classify, RULE, ASSUME, driver=('drv_live', drivers.LIVE_SOURCES), canon=canon)
+    return core.standard_run(PROP, tier, MODULES, THEOREMS, gen, oracle, classify, RULE, ASSUME, driver=('drv_live', drivers.LIVE_SOURCES), canon=canon, retry=2)
 def replay(path):
     return core.standard_replay(PROP, path, oracle, driver=('drv_live', drivers.LIVE_SOURCES))
